@@ -8,7 +8,7 @@ stateless ICU4X calls made with those expected options.
 """
 import json, os
 HERE = os.path.dirname(os.path.abspath(__file__))
-LOCALES = ["en", "fr", "de", "ja", "ar", "ru", "pt", "pt-PT"]
+LOCALES = ["en", "fr", "de", "ja", "ar", "ru", "pt", "pt-PT", "th"]
 
 keys = []  # (name, formatter_text, kind, expected tuple)
 
